@@ -5,5 +5,5 @@ THEOREMS = []
 TRUSTED = []
 ASSUMPTIONS = []
 LEVEL_TEXT = 'Lean theorems: one-limb square root (table seed regenerated and checked), normalisation wrapper, residue filters are sound (never reject a square), final root adjustment; perfect-power logic. Differential run on k^n, k^n±1 for all small and many large k.'
-LEVEL_NOTE = "mpn_rootrem above the basecase range: one Newton round is proved, the induction over the size schedule is not, so RootremSpec remains a hypothesis of the mpz_root/rootrem/perfect_power theorems there; Zimmermann square root is value-level."
+LEVEL_NOTE = "Operands beyond 2^61 bits (the C's sizes[65] schedule array bounds them), scratch capacities EXTRA/PP_ALLOC and the carries inside the mpn kernels are outside the theorems."
 PLACEHOLDER = True
